@@ -585,6 +585,16 @@ class C04(Sim):
             if hard is not None and snap.get("unmarked") and ex["edges"] is hard:
                 # an un-marked edge is a side of a face: listing it or not means the same mesh (the flag is not part of the formats)
                 ex = dict(ex, edges_opt=[snap["edges"][i] for i in snap["unmarked"]])
+            if ex.get("edges_opt"):
+                # which of the optional (un-marked) edges the exporter chose to list is read off the file once, by the independent reader:
+                # from here on the file's content is judged exactly
+                try:
+                    seen = RC.core(RC.read(fmt, self.fs.files[self.fs.root + ev["path"]]))
+                except RC.FormatError:
+                    seen = None  # (not well formed: the cross-read / load of this file reports it)
+                if seen is not None and edges_agree(seen["edges"], ex["edges"], ex["edges_opt"]):
+                    ex = {k_: v_ for k_, v_ in ex.items() if k_ != "edges_opt"}
+                    ex["edges"] = [list(e) for e in seen["edges"]]
             self.files[ev["path"]] = {"fmt": fmt, "snap": snap, "expressed": ex, "origin": "save", "kinds": kinds}
             self.seq.append("save:" + fmt)
             if fmt == "stl":
